@@ -281,7 +281,14 @@ private:
             }
 
             m_senders_waiting.fetch_add(1, std::memory_order_acq_rel);
-            int ret = m_send_sem.wait(1, timeout.timeout_us());
+            // Look again now that we are registered: a pop() or close() that ran
+            // before the registration saw no waiter and did not signal.
+            std::atomic_thread_fence(std::memory_order_seq_cst);
+            int ret = 0;
+            if (m_queue->read_available() >= m_capacity &&
+                !m_closed.load(std::memory_order_acquire)) {
+                ret = m_send_sem.wait(1, timeout.timeout_us());
+            }
             m_senders_waiting.fetch_sub(1, std::memory_order_acq_rel);
 
             if (ret < 0 && errno == ETIMEDOUT) {
@@ -292,6 +299,7 @@ private:
     }
 
     bool buffered_recv(T& value, Timeout timeout) {
+        bool closed_seen = false;
         while (true) {
             // Try to pop (lock-free)
             T* ptr = nullptr;
@@ -305,8 +313,14 @@ private:
                 return true;
             }
 
-            if (m_closed.load(std::memory_order_acquire)) {
+            if (closed_seen) {
                 return false;  // Closed and empty
+            }
+            if (m_closed.load(std::memory_order_acquire)) {
+                // An item may have been pushed between the pop above and this
+                // test: drain once more before reporting "closed".
+                closed_seen = true;
+                continue;
             }
 
             if (timeout.expired()) {
@@ -315,7 +329,13 @@ private:
             }
 
             m_receivers_waiting.fetch_add(1, std::memory_order_acq_rel);
-            int ret = m_recv_sem.wait(1, timeout.timeout_us());
+            // Look again now that we are registered (see buffered_send)
+            std::atomic_thread_fence(std::memory_order_seq_cst);
+            int ret = 0;
+            if (m_queue->empty() &&
+                !m_closed.load(std::memory_order_acquire)) {
+                ret = m_recv_sem.wait(1, timeout.timeout_us());
+            }
             m_receivers_waiting.fetch_sub(1, std::memory_order_acq_rel);
 
             if (ret < 0 && errno == ETIMEDOUT) {
